@@ -233,10 +233,16 @@ class FakeSocket(object):
         if fault is not None:
             kind = fault['kind']
             w.fired('recv_' + kind)
+            w.recv_fault_marks.append((st.index, k, w.seq, w.now))
             if kind == 'reset':
                 raise OSError(errno.ECONNRESET, 'Connection reset by peer')
             if kind == 'timeout':
                 raise _real_socket.timeout('timed out')
+            if kind == 'ssl':
+                # what a corrupted TLS record looks like to the reader
+                raise _real_ssl.SSLError(
+                    1, '[SSL: DECRYPTION_FAILED_OR_BAD_RECORD_MAC] decryption '
+                    'failed or bad record mac (injected)')
             raise InjectedError('injected {failure} in recv {0} {')
         if not (st.tls and st.tls_buf):
             # blocking read (proxy phase, or a spurious wake-up)
@@ -714,6 +720,7 @@ class World(object):
         self.sched = None           # ThreadSim scheduler (None in NetSim)
         self.exit_waits = []
         self.fault_marks = []
+        self.recv_fault_marks = []     # (socket, k, seq at the time, now)
         self.keys_seen = []
         self.marks = []
         self.host_specs = {}
@@ -807,6 +814,8 @@ class World(object):
                 f['_used'] = True
                 return f
             if f.get('k') is not None and f['k'] != k:
+                continue
+            if f.get('k_from') is not None and k < f['k_from']:
                 continue
             if f.get('role') and st is not None and f['role'] != st.role:
                 continue
